@@ -2,16 +2,48 @@
    This file holds the source-wide half: every unconditional panic site of the non-test source
    (list regenerated from /repo on every run) is in the reviewed classification — a documented
    failure, an internal check that the refinement theorems exclude, or a dependency contract.
-   The per-operation halves ("= Panic k <-> documented failure condition", "checked_* = Ret None
-   exactly then") are the `= omap enc (spec …)` theorems of C01–C13/C17–C19 themselves, because
-   the Z-level specs state the panics; they are re-exported below as the areas are merged. *)
+   The per-operation halves follow, grouped by area: for every documented failure case
+       C14_<op>_panics_iff :  (model_op args = Panic <Kind> <-> <condition on the values>) /\
+                              (~ <condition> -> exists r, model_op args = Ret r)
+   ([fails_iff] below; in particular no OTHER panic kind, no Internal check, no OutOfFuel), for
+   every `checked_*` method
+       C14_checked_<op>_never_panics : exists r, checked_op args = Ret r /\ (r = None <-> <condition>)
+   ([checked_iff]), and `exists r, op args = Ret r` ([total]) for the total operations.  Each is a
+   corollary of the owning area's refinement theorem `model = omap enc (spec ...)`, whose Z-level
+   spec is `if <condition> then Panic k else Ret ...` (proofs/FailureLemmas.v).
+   Operations parameterised by a big multiplication / division are taken at the real models
+   `Mul.umul Extracted.mul` / `Div.udivrem Extracted.div` (inst/InstBigOps.v). *)
+From Coq Require Import ZArith List Bool Lia.
 From BigNum Require Import Base BaseLemmas Cfg X86 AddSub SpecAddSub AddSubProofs Extracted InstAddSub.
+From BigNum Require Import FailureLemmas PgrLoop PgrLoopProofs InstBigOps.
+From BigNum Require Import Mul SpecMul MulProofs MulProofs3 MulProofs5 InstMul.
+From BigNum Require Import ShiftCore Div SpecDiv DivProofs DivProofsCore DivProofsApi DivProofsSign InstDiv.
+From BigNum Require Import Bits SpecBits BitsLemmas BitsProofsU BitsProofsTC BitsProofsI BitsProofsSNB InstBits.
+From BigNum Require Import Pow SpecPow PowProofs Gcd SpecGcd GcdProofs GcdProofs2 GcdProofs3
+  SpecRoots RootsMath Roots RootsProofs InstPgr.
+From BigNum Require Import Monty Modpow SpecModpow MontyProofs ModinvZ ModpowProofs ModpowInst InstModpow.
+From BigNum Require Import SpecBytes BytesLemmas Radix RadixText RadixKernels RadixApi SpecRadix
+  RadixProofs RadixProofs2 RadixProofs3 RadixTextProofs RadixInst InstRadix InstRadixMul.
+From BigNum Require Import Sign SpecSign SignProofs Rand SpecRand RandProofs.
+From BigNum Require Import Prim SpecPrim PrimProofsCast PrimProofs PrimProofsFloat PrimProofsToFloat
+  PrimProofsFromFloat InstPrim.
+From BigNum Require Import BitDigits BitDigitsProofs Iter IterProofs Bytes BytesProofs SignedBytesProofs.
+Import ListNotations.
 Open Scope Z_scope.
+
+Local Notation P := Extracted.div.
+Local Notation bmul := (Mul.umul Extracted.mul).        (* = PgrInst.pgr_bmul, ModpowInst.rmul *)
+Local Notation bdivrem := (Div.udivrem Extracted.div).  (* = PgrInst.pgr_bdivrem, ModpowInst.rdivrem *)
+Local Notation ok := div_params_ok.
+Local Notation fails_iff m k C := ((m = Panic k <-> C) /\ (~ C -> exists r, m = Ret r)).
+Local Notation checked_iff m C := (exists r, m = Ret r /\ (r = None <-> C)).
+Local Notation total m := (exists r, m = Ret r).
 
 Theorem C14_all_sites_classified : forallb site_ok panic_sites = true.
 Proof. vm_compute. reflexivity. Qed.
 Print Assumptions C14_all_sites_classified.
 
+(** * C01 — addition, subtraction *)
 (* BigUint subtraction: panics exactly when a < b, never otherwise; checked_sub never panics. *)
 Theorem C14_usub_panics_iff : forall a b, canon a -> canon b ->
   (usub addsub a b = Panic SubUnderflow <-> val a < val b) /\
@@ -42,3 +74,660 @@ Proof.
   intros. rewrite iadd_spec, isub_spec by auto using addsub_params_ok. eauto.
 Qed.
 Print Assumptions C14_iadd_isub_never_panic.
+
+Theorem C14_usub_ref_val_panics_iff : forall a b, canon a -> canon b ->
+  fails_iff (usub_ref_val addsub a b) SubUnderflow (val a < val b).
+Proof.
+  intros a b Ca Cb. eapply panics_iff_ite; [apply usub_ref_val_spec; auto using addsub_params_ok | apply Z.ltb_lt].
+Qed.
+Print Assumptions C14_usub_ref_val_panics_iff.
+
+(** * C02 — multiplication never panics *)
+Theorem C14_mul_never_panics :
+  (forall a b, canon a -> canon b -> total (umul mul a b) /\ total (umul_assign mul a b)) /\
+  (forall x y, icanon x -> icanon y -> total (imul mul x y) /\ total (imul_assign mul x y)) /\
+  (forall a s, canon a -> (0 <= s < B -> total (umul_digit a s)) /\ (0 <= s < B * B -> total (umul_u128 mul a s))).
+Proof.
+  pose proof mul_params_ok as Hm. split; [|split].
+  - intros; split; eapply ret_never_panics; [apply umul_spec|apply umul_assign_spec]; auto.
+  - intros; split; eapply ret_never_panics; [apply imul_spec|apply imul_assign_spec]; auto.
+  - intros; split; intros; eapply ret_never_panics; [apply umul_digit_spec|apply umul_u128_spec]; auto.
+Qed.
+Print Assumptions C14_mul_never_panics.
+
+Theorem C14_checked_mul_never_panics :
+  (forall a b, canon a -> canon b -> exists r, uchecked_mul mul a b = Ret (Some r)) /\
+  (forall x y, icanon x -> icanon y -> exists r, ichecked_mul mul x y = Ret (Some r)).
+Proof.
+  pose proof mul_params_ok as Hm. split; intros.
+  - rewrite uchecked_mul_spec by auto. eexists; reflexivity.
+  - rewrite ichecked_mul_spec by auto. eexists; reflexivity.
+Qed.
+Print Assumptions C14_checked_mul_never_panics.
+
+(** * C03 — division and remainder: DivZero exactly on a zero divisor *)
+Theorem C14_udivrem_panics_iff : forall a b, canon a -> canon b ->
+  fails_iff (udivrem P a b) DivZero (val b = 0) /\
+  fails_iff (udivrem_val P a b) DivZero (val b = 0) /\
+  fails_iff (udiv_mod_floor P a b) DivZero (val b = 0) /\
+  fails_iff (udiv_rem_euclid P a b) DivZero (val b = 0).
+Proof.
+  intros a b Ca Cb. split_ops; (eapply panics_iff_ite; [|apply eqb0_iff]).
+  all: first [ apply udivrem_spec; auto using ok | apply udivrem_val_spec; auto using ok
+             | rewrite udivrem_refines by auto using ok; unfold spec_udivrem, nz; apply omap_ite ].
+Qed.
+Print Assumptions C14_udivrem_panics_iff.
+
+Theorem C14_udiv_panics_iff : forall a b, canon a -> canon b ->
+  fails_iff (udiv P a b) DivZero (val b = 0) /\
+  fails_iff (udiv_val P a b) DivZero (val b = 0) /\
+  fails_iff (udiv_floor P a b) DivZero (val b = 0) /\
+  fails_iff (udiv_euclid P a b) DivZero (val b = 0) /\
+  fails_iff (udiv_ceil P a b) DivZero (val b = 0).
+Proof.
+  intros a b Ca Cb. split_ops; (eapply panics_iff_ite; [|apply eqb0_iff]).
+  all: first [ rewrite udiv_spec by auto using ok | rewrite udiv_val_spec by auto using ok
+             | rewrite udiv_ceil_spec by auto using ok ];
+    unfold spec_udiv, spec_udiv_ceil, nz; apply omap_ite.
+Qed.
+Print Assumptions C14_udiv_panics_iff.
+
+Theorem C14_urem_panics_iff : forall a b, canon a -> canon b ->
+  fails_iff (urem P a b) DivZero (val b = 0) /\
+  fails_iff (urem_val P a b) DivZero (val b = 0) /\
+  fails_iff (umod_floor P a b) DivZero (val b = 0) /\
+  fails_iff (urem_euclid P a b) DivZero (val b = 0).
+Proof.
+  intros a b Ca Cb. split_ops; (eapply panics_iff_ite; [|apply eqb0_iff]).
+  all: first [ rewrite urem_spec by auto using ok | rewrite urem_val_spec by auto using ok
+             | rewrite umod_floor_spec by auto using ok ];
+    unfold spec_urem, nz; apply omap_ite.
+Qed.
+Print Assumptions C14_urem_panics_iff.
+
+(* BigUint (/ %) uN and uN (/ %) BigUint *)
+Theorem C14_udivrem_scalar_panics_iff : forall a s, canon a ->
+  (0 <= s < B -> fails_iff (udiv_u32 P a s) DivZero (s = 0) /\ fails_iff (urem_u32 P a s) DivZero (s = 0) /\
+                 fails_iff (udiv_u64 P a s) DivZero (s = 0) /\ fails_iff (urem_u64 P a s) DivZero (s = 0)) /\
+  (0 <= s < B * B -> fails_iff (udiv_u128 P a s) DivZero (s = 0) /\ fails_iff (urem_u128 P a s) DivZero (s = 0)).
+Proof.
+  intros a s Ca. split; intros Hs; split_ops; (eapply panics_iff_ite; [|apply eqb0_iff]).
+  all: first [ rewrite udiv_u32_spec by auto | rewrite urem_u32_spec by auto
+             | rewrite udiv_u64_spec by auto using ok | rewrite urem_u64_spec by auto using ok
+             | rewrite udiv_u128_spec by auto using ok | rewrite urem_u128_spec by auto using ok ];
+    unfold spec_udiv, spec_urem, nz; apply omap_ite.
+Qed.
+Print Assumptions C14_udivrem_scalar_panics_iff.
+
+Theorem C14_scalar_udivrem_panics_iff : forall s b, canon b ->
+  (0 <= s < 2 ^ 32 -> fails_iff (u32_rem_u s b) DivZero (val b = 0)) /\
+  (0 <= s < B -> fails_iff (digit_div_u s b) DivZero (val b = 0) /\ fails_iff (u64_rem_u s b) DivZero (val b = 0)) /\
+  (0 <= s < B * B -> fails_iff (u128_div_u s b) DivZero (val b = 0) /\ fails_iff (u128_rem_u s b) DivZero (val b = 0)).
+Proof.
+  intros s b Cb. split; [|split]; intros Hs; split_ops; (eapply panics_iff_ite; [|apply eqb0_iff]).
+  all: first [ rewrite u32_rem_u_spec by auto | rewrite digit_div_u_spec by auto | rewrite u64_rem_u_spec by auto
+             | rewrite u128_div_u_spec by auto | rewrite u128_rem_u_spec by auto ];
+    unfold spec_scalar_div, spec_scalar_rem, nz; apply omap_ite.
+Qed.
+Print Assumptions C14_scalar_udivrem_panics_iff.
+
+(* BigInt: every rounding convention *)
+Theorem C14_idiv_rem_panics_iff : forall x y, icanon x -> icanon y ->
+  fails_iff (idiv_rem P x y) DivZero (ival y = 0) /\
+  fails_iff (idiv P x y) DivZero (ival y = 0) /\
+  fails_iff (irem P x y) DivZero (ival y = 0).
+Proof.
+  intros x y Cx Cy. split_ops; (eapply panics_iff_ite; [|apply eqb0_iff]).
+  all: first [ rewrite idiv_rem_spec by auto using ok | rewrite idiv_spec by auto using ok
+             | rewrite irem_spec by auto using ok ];
+    unfold spec_idivrem, spec_idiv, spec_irem, nz; apply omap_ite.
+Qed.
+Print Assumptions C14_idiv_rem_panics_iff.
+
+Theorem C14_idiv_floor_panics_iff : forall x y, icanon x -> icanon y ->
+  fails_iff (idiv_floor P x y) DivZero (ival y = 0) /\
+  fails_iff (imod_floor P x y) DivZero (ival y = 0) /\
+  fails_iff (idiv_mod_floor P x y) DivZero (ival y = 0).
+Proof.
+  intros x y Cx Cy. split_ops; (eapply panics_iff_ite; [|apply eqb0_iff]).
+  all: first [ rewrite idiv_floor_spec by auto using ok | rewrite imod_floor_spec by auto using ok
+             | rewrite idiv_mod_floor_spec by auto using ok ];
+    unfold spec_idiv_floor, spec_imod_floor, spec_idiv_mod_floor, nz; apply omap_ite.
+Qed.
+Print Assumptions C14_idiv_floor_panics_iff.
+
+Theorem C14_idiv_euclid_panics_iff : forall x y, icanon x -> icanon y ->
+  fails_iff (idiv_euclid P x y) DivZero (ival y = 0) /\
+  fails_iff (irem_euclid P x y) DivZero (ival y = 0) /\
+  fails_iff (idiv_rem_euclid P x y) DivZero (ival y = 0).
+Proof.
+  intros x y Cx Cy. split_ops; (eapply panics_iff_ite; [|apply eqb0_iff]).
+  all: first [ rewrite idiv_euclid_spec by auto using ok | rewrite irem_euclid_spec by auto using ok
+             | rewrite idiv_rem_euclid_spec by auto using ok ];
+    unfold spec_div_euclid, spec_rem_euclid, spec_div_rem_euclid, nz; apply omap_ite.
+Qed.
+Print Assumptions C14_idiv_euclid_panics_iff.
+
+Theorem C14_idiv_ceil_panics_iff : forall x y, icanon x -> icanon y ->
+  fails_iff (idiv_ceil P x y) DivZero (ival y = 0).
+Proof.
+  intros x y Cx Cy. eapply panics_iff_ite; [|apply eqb0_iff].
+  rewrite idiv_ceil_spec by auto using ok. unfold spec_idiv_ceil, nz; apply omap_ite.
+Qed.
+Print Assumptions C14_idiv_ceil_panics_iff.
+
+(* every checked division variant of both types: never a panic, None exactly on a zero divisor *)
+Theorem C14_checked_udiv_never_panics : forall a b, canon a -> canon b ->
+  checked_iff (uchecked_div P a b) (val b = 0) /\
+  checked_iff (uchecked_div_euclid P a b) (val b = 0) /\
+  checked_iff (uchecked_rem_euclid P a b) (val b = 0) /\
+  checked_iff (uchecked_div_rem_euclid P a b) (val b = 0).
+Proof.
+  intros a b Ca Cb. split_ops; (eapply checked_iff_ite; [|apply eqb0_iff]).
+  all: first [ rewrite uchecked_div_spec by auto using ok | rewrite uchecked_div_euclid_spec by auto using ok
+             | rewrite uchecked_rem_euclid_spec by auto using ok | rewrite uchecked_div_rem_euclid_spec by auto using ok ];
+    unfold spec_uchecked_div, spec_uchecked_rem, spec_uchecked_divrem, chk; apply omap_chk.
+Qed.
+Print Assumptions C14_checked_udiv_never_panics.
+
+Theorem C14_checked_idiv_never_panics : forall x y, icanon x -> icanon y ->
+  checked_iff (ichecked_div P x y) (ival y = 0) /\
+  checked_iff (ichecked_div_inherent P x y) (ival y = 0) /\
+  checked_iff (ichecked_div_euclid P x y) (ival y = 0) /\
+  checked_iff (ichecked_rem_euclid P x y) (ival y = 0) /\
+  checked_iff (ichecked_div_rem_euclid P x y) (ival y = 0).
+Proof.
+  intros x y Cx Cy. split_ops; (eapply checked_iff_ite; [|apply eqb0_iff]).
+  all: first [ rewrite ichecked_div_spec by auto using ok | rewrite ichecked_div_inherent_spec by auto using ok
+             | rewrite ichecked_div_euclid_spec by auto using ok | rewrite ichecked_rem_euclid_spec by auto using ok
+             | rewrite ichecked_div_rem_euclid_spec by auto using ok ];
+    unfold spec_ichecked_div, spec_ichecked_div_euclid, spec_ichecked_rem_euclid, spec_ichecked_div_rem_euclid, chk;
+    apply omap_chk.
+Qed.
+Print Assumptions C14_checked_idiv_never_panics.
+
+(** * C07 — shifts: NegShift exactly on a negative amount; logic operators never panic *)
+(* `<<` has a second failure: a result that cannot even be requested from the allocator
+   (>= 2^60 digits) is the "capacity overflow" panic of `Vec` (SpecBits.spec_shl) *)
+Theorem C14_ushl_panics_iff : forall a s, canon a ->
+  (biguint_shl a s = Panic NegShift <-> s < 0) /\
+  (biguint_shl a s = Panic MemOverflow <->
+     0 <= s /\ val a <> 0 /\ 0 < s / 64 /\ 2 ^ 60 <= s / 64 + (zdigits (val a) + 1)) /\
+  (0 <= s -> ~ (val a <> 0 /\ 0 < s / 64 /\ 2 ^ 60 <= s / 64 + (zdigits (val a) + 1)) ->
+   exists r, biguint_shl a s = Ret r).
+Proof.
+  intros a s Ca. rewrite biguint_shl_spec by auto. unfold spec_shl, too_big.
+  destruct (Z.ltb_spec s 0); [cbn; repeat split; intros; try discriminate; try lia|].
+  destruct (Z.eqb_spec (val a) 0); [cbn; repeat split; intros; try discriminate; try lia; eexists; reflexivity|].
+  destruct (Z.ltb_spec 0 (s / 64)); destruct (Z.leb_spec (2 ^ 60) (s / 64 + (zdigits (val a) + 1))); cbn;
+    repeat split; intros; try discriminate; try lia; try tauto; eexists; reflexivity.
+Qed.
+Print Assumptions C14_ushl_panics_iff.
+
+Theorem C14_ishl_panics_iff : forall x s, icanon x ->
+  (ishl x s = Panic NegShift <-> s < 0) /\
+  (ishl x s = Panic MemOverflow <->
+     0 <= s /\ ival x <> 0 /\ 0 < s / 64 /\ 2 ^ 60 <= s / 64 + (zdigits (ival x) + 1)) /\
+  (0 <= s -> ~ (ival x <> 0 /\ 0 < s / 64 /\ 2 ^ 60 <= s / 64 + (zdigits (ival x) + 1)) ->
+   exists r, ishl x s = Ret r) /\
+  ishl_assign x s = ishl x s.
+Proof.
+  intros x s Cx. rewrite ishl_assign_spec, ishl_spec by auto. split; [|split; [|split; [|reflexivity]]];
+  unfold spec_shl, too_big;
+  (destruct (Z.ltb_spec s 0); [cbn; repeat split; intros; try discriminate; try lia|]);
+  (destruct (Z.eqb_spec (ival x) 0); [cbn; repeat split; intros; try discriminate; try lia; try (eexists; reflexivity)|]);
+  destruct (Z.ltb_spec 0 (s / 64)); destruct (Z.leb_spec (2 ^ 60) (s / 64 + (zdigits (ival x) + 1))); cbn;
+    repeat split; intros; try discriminate; try lia; try tauto; try (eexists; reflexivity).
+Qed.
+Print Assumptions C14_ishl_panics_iff.
+
+Theorem C14_shr_panics_iff :
+  (forall a s, canon a -> vec_ok a -> fails_iff (biguint_shr a s) NegShift (s < 0)) /\
+  (forall x s, icanon x -> vec_ok (mag x) ->
+     fails_iff (ishr bits addsub x s) NegShift (s < 0) /\ fails_iff (ishr_assign bits addsub x s) NegShift (s < 0)).
+Proof.
+  split; [intros a s Ca Va | intros x s Cx Vx; split]; (eapply panics_iff_ite; [|apply ltb0_iff]).
+  - rewrite biguint_shr_spec by auto. unfold spec_shr. apply omap_ite.
+  - rewrite ishr_spec by auto using bits_params_ok, addsub_params_ok. unfold spec_shr. apply omap_ite.
+  - rewrite ishr_assign_spec by auto using bits_params_ok, addsub_params_ok. unfold spec_shr. apply omap_ite.
+Qed.
+Print Assumptions C14_shr_panics_iff.
+
+Theorem C14_logic_never_panics : forall x y, icanon x -> icanon y ->
+  total (iand bits x y) /\ total (iand_assign x y) /\ total (ior bits x y) /\ total (ior_assign bits x y) /\
+  total (ixor bits x y) /\ total (ixor_assign bits x y) /\ total (inot addsub x) /\ total (inot_ref addsub x).
+Proof.
+  intros x y Cx Cy. pose proof bits_params_ok as Hb. pose proof addsub_params_ok as Ha.
+  repeat split; eapply ret_never_panics;
+    [apply iand_spec|apply iand_assign_spec|apply ior_spec|apply ior_assign_spec|apply ixor_spec|apply ixor_assign_spec
+    |rewrite inot_spec by auto; reflexivity|rewrite inot_ref_spec by auto; reflexivity]; auto.
+Qed.
+Print Assumptions C14_logic_never_panics.
+
+Theorem C14_bit_ops_never_panic :
+  (forall a i v, canon a -> 0 <= i < B -> total (uset_bit bits a i v)) /\
+  (forall x i v, icanon x -> vec_ok (mag x) -> 0 <= i < B -> total (iset_bit bits x i v)) /\
+  (forall x i, icanon x -> 0 <= i -> total (ibit bits x i)).
+Proof.
+  pose proof bits_params_ok as Hb. split; [|split]; intros.
+  - rewrite uset_bit_spec by auto. eexists; reflexivity.
+  - rewrite iset_bit_spec by auto. eexists; reflexivity.
+  - rewrite ibit_spec by auto. eexists; reflexivity.
+Qed.
+Print Assumptions C14_bit_ops_never_panic.
+
+(** * C13 — gcd / lcm / Bezout never panic; next/prev_multiple_of: DivZero; dec: SubUnderflow *)
+Theorem C14_gcd_lcm_never_panic :
+  (forall a b, canon a -> canon b ->
+     total (ugcd addsub pgr_gcd a b) /\ total (ulcm bmul bdivrem addsub pgr_gcd a b) /\
+     total (ugcd_lcm bmul bdivrem addsub pgr_gcd a b)) /\
+  (forall x y, icanon x -> icanon y ->
+     total (igcd addsub pgr_gcd x y) /\ total (ilcm bmul bdivrem addsub pgr_gcd x y) /\
+     total (igcd_lcm bmul bdivrem addsub pgr_gcd x y) /\ total (iextended_gcd bmul bdivrem addsub x y)).
+Proof.
+  pose proof umul_exact as Hm. pose proof udivrem_exact as Hd.
+  pose proof addsub_params_ok as Ha. pose proof gcd_params_ok as Hg.
+  split; intros; repeat split.
+  - eapply ret_never_panics; apply ugcd_spec; auto.
+  - eapply ret_never_panics; apply ulcm_spec; auto.
+  - eapply ret_never_panics; apply ugcd_lcm_spec; auto.
+  - eapply ret_never_panics; apply igcd_spec; auto.
+  - eapply ret_never_panics; apply ilcm_spec; auto.
+  - eapply ret_never_panics; apply igcd_lcm_spec; auto.
+  - destruct (iextended_gcd_spec bmul bdivrem Hm Hd addsub Ha x y) as (g & u & w & E & _); auto.
+    eexists; exact E.
+Qed.
+Print Assumptions C14_gcd_lcm_never_panic.
+
+Theorem C14_multiple_of_panics_iff :
+  (forall a b, canon a -> canon b ->
+     fails_iff (unext_multiple_of bdivrem addsub a b) DivZero (val b = 0) /\
+     fails_iff (uprev_multiple_of bdivrem addsub a b) DivZero (val b = 0) /\
+     total (uis_multiple_of bdivrem a b)) /\
+  (forall x y, icanon x -> icanon y ->
+     fails_iff (inext_multiple_of bdivrem addsub x y) DivZero (ival y = 0) /\
+     fails_iff (iprev_multiple_of bdivrem addsub x y) DivZero (ival y = 0) /\
+     total (iis_multiple_of bdivrem x y)).
+Proof.
+  pose proof udivrem_exact as Hd. pose proof addsub_params_ok as Ha.
+  split; intros; split_ops.
+  - eapply panics_iff_ite; [|apply eqb0_iff].
+    rewrite unext_multiple_of_spec by auto. unfold spec_next_multiple_of. apply omap_ite.
+  - eapply panics_iff_ite; [|apply eqb0_iff].
+    rewrite uprev_multiple_of_spec by auto. unfold spec_prev_multiple_of. apply omap_ite.
+  - rewrite uis_multiple_of_spec by auto. eexists; reflexivity.
+  - eapply panics_iff_ite; [|apply eqb0_iff].
+    rewrite inext_multiple_of_spec by auto. unfold spec_next_multiple_of. apply omap_ite.
+  - eapply panics_iff_ite; [|apply eqb0_iff].
+    rewrite iprev_multiple_of_spec by auto. unfold spec_prev_multiple_of. apply omap_ite.
+  - rewrite iis_multiple_of_spec by auto. eexists; reflexivity.
+Qed.
+Print Assumptions C14_multiple_of_panics_iff.
+
+(* `Integer::dec` on a BigUint is `*self -= 1`: the subtraction-below-zero failure for zero *)
+Theorem C14_inc_dec_panics_iff :
+  (forall a, canon a -> fails_iff (udec addsub a) SubUnderflow (val a = 0) /\ total (uinc addsub a)) /\
+  (forall x, icanon x -> total (idec addsub x) /\ total (iinc addsub x)).
+Proof.
+  pose proof addsub_params_ok as Ha. split; intros; split.
+  - eapply panics_iff_ite; [rewrite udec_spec by auto; unfold spec_udec; apply omap_ite|].
+    pose proof (val_nonneg a (proj1 H)). rewrite Z.ltb_lt. lia.
+  - eapply ret_never_panics; apply uinc_spec; auto.
+  - eapply ret_never_panics; apply idec_spec; auto.
+  - eapply ret_never_panics; apply iinc_spec; auto.
+Qed.
+Print Assumptions C14_inc_dec_panics_iff.
+
+(** * C12 — pow: a BigUint exponent that does not fit u128 with a base >= 2 is MemOverflow *)
+Theorem C14_pow_big_panics_iff :
+  (forall x e, canon x -> canon e ->
+     fails_iff (upow_big bmul pgr_pow x e) MemOverflow (2 <= val x /\ 2 ^ 128 <= val e) /\
+     fails_iff (upow_big_ref bmul pgr_pow x e) MemOverflow (2 <= val x /\ 2 ^ 128 <= val e)) /\
+  (forall x e, icanon x -> canon e ->
+     fails_iff (ipow_big bmul pgr_pow x e) MemOverflow (2 <= Z.abs (ival x) /\ 2 ^ 128 <= val e) /\
+     fails_iff (ipow_big_ref bmul pgr_pow x e) MemOverflow (2 <= Z.abs (ival x) /\ 2 ^ 128 <= val e)).
+Proof.
+  pose proof umul_exact as Hm. pose proof pow_params_ok as Hp.
+  assert (HB : BB = 2 ^ 128) by (rewrite BB_val, B_val; reflexivity).
+  assert (Hc : forall u w, ((2 <=? u) && (BB <=? w)) = true <-> 2 <= u /\ 2 ^ 128 <= w).
+  { intros u w. rewrite HB, andb_true_iff, !Z.leb_le. tauto. }
+  split; intros; split; (eapply panics_iff_ite; [|apply Hc]).
+  - apply upow_big_spec; auto.
+  - apply upow_big_ref_spec; auto.
+  - apply ipow_big_spec; auto.
+  - apply ipow_big_ref_spec; auto.
+Qed.
+Print Assumptions C14_pow_big_panics_iff.
+
+Theorem C14_pow_prim_never_panics :
+  (forall x e, canon x -> 0 <= e < 2 ^ 128 ->
+     total (upow_prim bmul pgr_pow x e) /\ total (upow_prim_ref bmul pgr_pow x e)) /\
+  (forall x e, icanon x -> 0 <= e < 2 ^ 128 ->
+     total (ipow_prim bmul pgr_pow x e) /\ total (ipow_prim_ref bmul pgr_pow x e)).
+Proof.
+  pose proof umul_exact as Hm. pose proof pow_params_ok as Hp.
+  split; intros; split; eapply ret_never_panics;
+    [apply upow_prim_spec|apply upow_prim_ref_spec|apply ipow_prim_spec|apply ipow_prim_ref_spec]; auto.
+Qed.
+Print Assumptions C14_pow_prim_never_panics.
+
+(** * C11 — roots: ZeroRoot for degree 0, ImagRoot for an even root of a negative *)
+(* [gf] = any initial-guess function returning canonical values >= 1 (C11: guess_ok) *)
+Theorem C14_nth_root_panics_iff : forall gf, guess_ok gf -> forall x n, canon x -> 0 <= n < 2 ^ 32 ->
+  fails_iff (unth_root bmul bdivrem addsub pgr_pow pgr_roots gf x n) ZeroRoot (n = 0) /\
+  total (usqrt bdivrem addsub pgr_roots gf x) /\
+  total (ucbrt bmul bdivrem addsub pgr_roots gf x).
+Proof.
+  intros gf Hg x n Cx Hn.
+  pose proof umul_exact as Hm. pose proof udivrem_exact as Hd. pose proof addsub_params_ok as Ha.
+  pose proof pow_params_ok as Hp. pose proof roots_params_ok as Hr.
+  split; [|split].
+  - eapply panics_iff_ite; [|apply eqb0_iff].
+    rewrite unth_root_spec by auto. unfold spec_unth_root. apply omap_ite.
+  - eapply ret_never_panics; apply usqrt_spec; auto.
+  - eapply ret_never_panics; apply ucbrt_spec; auto.
+Qed.
+Print Assumptions C14_nth_root_panics_iff.
+
+(* the evenness test comes first: (negative)^(1/0) is reported as ImagRoot *)
+Theorem C14_inth_root_panics_iff : forall gf, guess_ok gf -> forall x n, icanon x -> 0 <= n < 2 ^ 32 ->
+  let m := inth_root bmul bdivrem addsub pgr_pow pgr_roots gf x n in
+  (m = Panic ImagRoot <-> ival x < 0 /\ Z.even n = true) /\
+  (m = Panic ZeroRoot <-> ~ (ival x < 0 /\ Z.even n = true) /\ n = 0) /\
+  (~ (ival x < 0 /\ Z.even n = true) -> n <> 0 -> exists r, m = Ret r).
+Proof.
+  intros gf Hg x n Cx Hn m. subst m.
+  pose proof umul_exact as Hm. pose proof udivrem_exact as Hd. pose proof addsub_params_ok as Ha.
+  pose proof pow_params_ok as Hp. pose proof roots_params_ok as Hr.
+  eapply panics_iff_ite2; [discriminate| | |apply eqb0_iff].
+  - rewrite inth_root_spec by auto. unfold spec_inth_root. apply omap_ite2.
+  - rewrite andb_true_iff, Z.ltb_lt. tauto.
+Qed.
+Print Assumptions C14_inth_root_panics_iff.
+
+Theorem C14_isqrt_icbrt_panics_iff : forall gf, guess_ok gf -> forall x, icanon x ->
+  fails_iff (isqrt bdivrem addsub pgr_roots gf x) ImagRoot (ival x < 0) /\
+  total (icbrt bmul bdivrem addsub pgr_roots gf x).
+Proof.
+  intros gf Hg x Cx.
+  pose proof umul_exact as Hm. pose proof udivrem_exact as Hd. pose proof addsub_params_ok as Ha.
+  pose proof roots_params_ok as Hr.
+  split.
+  - eapply panics_iff_ite; [|apply ltb0_iff]. rewrite isqrt_spec by auto. unfold spec_isqrt. apply omap_ite.
+  - rewrite icbrt_spec by auto. eexists; reflexivity.
+Qed.
+Print Assumptions C14_isqrt_icbrt_panics_iff.
+
+(** * C05 — modpow: ZeroModulus, NegExponent (tested first); modinv: ZeroModulus *)
+(* r_umodpow etc. = the models at bmul / bdivrem (ModpowInst.v); 2^57 digits: the Montgomery
+   buffer bound of C05 *)
+Theorem C14_umodpow_panics_iff : forall x e m, canon x -> canon e -> canon m ->
+  Z.of_nat (length m) < 2 ^ 57 ->
+  fails_iff (r_umodpow modpow x e m) ZeroModulus (val m = 0).
+Proof.
+  intros x e m Cx Ce Cm Hl. eapply panics_iff_ite; [|apply eqb0_iff].
+  apply (umodpow_spec addsub rmul rdivrem addsub_params_ok umul_exact udivrem_exact); auto using modpow_params_ok.
+Qed.
+Print Assumptions C14_umodpow_panics_iff.
+
+Theorem C14_imodpow_panics_iff : forall x e m, icanon x -> icanon e -> icanon m ->
+  Z.of_nat (length (mag m)) < 2 ^ 57 ->
+  (r_imodpow modpow x e m = Panic NegExponent <-> ival e < 0) /\
+  (r_imodpow modpow x e m = Panic ZeroModulus <-> ~ ival e < 0 /\ ival m = 0) /\
+  (~ ival e < 0 -> ival m <> 0 -> exists r, r_imodpow modpow x e m = Ret r).
+Proof.
+  intros x e m Cx Ce Cm Hl. eapply panics_iff_ite2; [discriminate| |apply ltb0_iff|apply eqb0_iff].
+  apply (imodpow_spec addsub rmul rdivrem addsub_params_ok umul_exact udivrem_exact); auto using modpow_params_ok.
+Qed.
+Print Assumptions C14_imodpow_panics_iff.
+
+Theorem C14_modinv_panics_iff :
+  (forall a m, canon a -> canon m -> fails_iff (r_umodinv a m) ZeroModulus (val m = 0)) /\
+  (forall x m, icanon x -> icanon m -> fails_iff (r_imodinv modpow x m) ZeroModulus (ival m = 0)).
+Proof.
+  split.
+  - intros a m Ca Cm.
+    rewrite (umodinv_spec addsub rmul rdivrem addsub_params_ok umul_exact udivrem_exact) by auto.
+    pose proof (val_nonneg m (proj1 Cm)) as Hm0.
+    destruct (Z.eq_dec (val m) 0) as [E|N].
+    + unfold spec_umodinv. rewrite E. cbn. split; [tauto|intros C; contradiction].
+    + destruct (spec_umodinv_char (val a) (val m) ltac:(lia)) as (r & -> & _). cbn.
+      split; [split; [discriminate|contradiction]|intros _; eexists; reflexivity].
+  - intros x m Cx Cm.
+    rewrite (imodinv_spec addsub rmul rdivrem addsub_params_ok umul_exact udivrem_exact) by auto using modpow_params_ok.
+    destruct (Z.eq_dec (ival m) 0) as [E|N].
+    + unfold spec_imodinv. rewrite E. cbn. split; [tauto|intros C; contradiction].
+    + destruct (spec_imodinv_char (ival x) (ival m) N) as (r & -> & _). cbn.
+      split; [split; [discriminate|contradiction]|intros _; eexists; reflexivity].
+Qed.
+Print Assumptions C14_modinv_panics_iff.
+
+(** * C06 — radix conversions: BadRadix exactly outside 2..=256 (digit vectors) / 2..=36 (text) *)
+Theorem C14_from_radix_panics_iff : forall buf r, bytes buf ->
+  fails_iff (u_from_radix_le radix buf r) BadRadix (~ 2 <= r <= 256) /\
+  fails_iff (u_from_radix_be radix buf r) BadRadix (~ 2 <= r <= 256) /\
+  (forall s, fails_iff (i_from_radix_le radix s buf r) BadRadix (~ 2 <= r <= 256) /\
+             fails_iff (i_from_radix_be radix s buf r) BadRadix (~ 2 <= r <= 256)).
+Proof.
+  intros buf r Hb. pose proof radix_params_std as Hs.
+  split; [|split; [|intros s; split]]; (eapply panics_iff_eti; [|apply radix_in_false]).
+  - rewrite inst_from_radix_le by auto. unfold spec_from_radix_le, radix_in. apply omap_eti.
+  - rewrite inst_from_radix_be by auto. unfold spec_from_radix_be, spec_from_radix_le, radix_in. apply omap_eti.
+  - rewrite inst_ifrom_radix_le by auto. unfold spec_ifrom_radix_le, spec_from_radix_le, radix_in.
+    apply omap_bind_eti.
+  - rewrite inst_ifrom_radix_be by auto.
+    unfold spec_ifrom_radix_be, spec_ifrom_radix_le, spec_from_radix_le, radix_in. apply omap_bind_eti.
+Qed.
+Print Assumptions C14_from_radix_panics_iff.
+
+(* any byte string (a parse error is a returned Err, not a panic) *)
+Theorem C14_from_str_radix_panics_iff : forall s r,
+  fails_iff (u_from_str_radix radix s r) BadRadix (~ 2 <= r <= 36) /\
+  fails_iff (i_from_str_radix radix s r) BadRadix (~ 2 <= r <= 36) /\
+  total (u_from_str radix s) /\ total (i_from_str radix s).
+Proof.
+  intros s r. pose proof radix_params_std as Hs.
+  assert (U : forall r', fails_iff (u_from_str_radix radix s r') BadRadix (~ 2 <= r' <= 36)).
+  { intros r'. rewrite inst_from_str_radix by auto. unfold spec_from_str, radix_in.
+    destruct (split_sign false s) as [neg body].
+    eapply panics_iff_eti; [apply omap_eti|apply radix_in_false]. }
+  assert (I : forall r', fails_iff (i_from_str_radix radix s r') BadRadix (~ 2 <= r' <= 36)).
+  { intros r'. rewrite inst_ifrom_str_radix by auto. unfold spec_from_str, radix_in.
+    destruct (split_sign true s) as [neg body].
+    eapply panics_iff_eti; [apply omap_eti|apply radix_in_false]. }
+  split; [apply U|]. split; [apply I|]. split.
+  - apply (proj2 (U 10)). lia.
+  - apply (proj2 (I 10)). lia.
+Qed.
+Print Assumptions C14_from_str_radix_panics_iff.
+
+(* parse_bytes looks at the radix only after the UTF-8 check *)
+Theorem C14_parse_bytes_panics_iff : forall buf r,
+  fails_iff (u_parse_bytes radix buf r) BadRadix (utf8_valid buf = true /\ ~ 2 <= r <= 36) /\
+  fails_iff (i_parse_bytes radix buf r) BadRadix (utf8_valid buf = true /\ ~ 2 <= r <= 36).
+Proof.
+  intros buf r. pose proof radix_params_std as Hs.
+  split; [rewrite inst_parse_bytes by auto | rewrite inst_iparse_bytes by auto];
+    unfold spec_parse_bytes, spec_from_str, radix_in.
+  all: destruct (utf8_valid buf);
+    [|cbn; split; [split; [discriminate|intros [X _]; discriminate]|intros _; eexists; reflexivity]].
+  all: match goal with |- context [split_sign ?b ?s] => destruct (split_sign b s) as [neg body] end.
+  all: destruct ((2 <=? r) && (r <=? 36)) eqn:E; cbn.
+  all: try (split; [split; [discriminate | intros [_ N]; apply radix_in_false in N; congruence]
+                   | intros _; eexists; reflexivity]).
+  all: split; [split; [intros _; split; [reflexivity | apply radix_in_false; exact E] | reflexivity]
+              | intros N; exfalso; apply N; split; [reflexivity | apply radix_in_false; exact E]].
+Qed.
+Print Assumptions C14_parse_bytes_panics_iff.
+
+Theorem C14_to_str_radix_panics_iff :
+  (forall u r, canon u -> fails_iff (u_to_str_radix radix u r) BadRadix (~ 2 <= r <= 36)) /\
+  (forall x r, icanon x -> fails_iff (i_to_str_radix radix x r) BadRadix (~ 2 <= r <= 36)).
+Proof.
+  pose proof radix_params_std as Hs. split; intros; (eapply panics_iff_eti; [|apply radix_in_false]).
+  - rewrite inst_to_str_radix by auto using small_or_umul_proved. unfold spec_to_str, radix_in. reflexivity.
+  - rewrite inst_ito_str_radix by auto using small_or_umul_proved. unfold spec_to_str, radix_in. reflexivity.
+Qed.
+Print Assumptions C14_to_str_radix_panics_iff.
+
+(* `to_radix_le/be` do NOT assert their radix (the doc only says "radix must be in the range
+   2...256"; model/Radix.v to_radix_le has no BadRadix arm): what is true is totality inside the
+   documented range.  The five formatters use the fixed radices 2, 8, 10, 16. *)
+Theorem C14_to_radix_never_panics_in_range :
+  (forall u r, canon u -> 2 <= r <= 256 ->
+     total (u_to_radix_le radix u r) /\ total (u_to_radix_be radix u r)) /\
+  (forall k fl u, canon u -> total (u_fmt radix k fl u)) /\
+  (forall k fl x, icanon x -> total (i_fmt radix k fl x)).
+Proof.
+  pose proof radix_params_std as Hs.
+  assert (F : forall k fl z, total (spec_fmt k fl z)).
+  { intros k fl z. unfold spec_fmt, spec_to_str.
+    replace (radix_in 2 36 (fmt_radix k)) with true by (destruct k; reflexivity).
+    cbn [bind]. eexists; reflexivity. }
+  split; [|split]; intros.
+  - split; eapply ret_never_panics; [apply inst_to_radix_le|apply inst_to_radix_be]; auto using small_or_umul_proved.
+  - rewrite inst_fmt_u by auto using small_or_umul_proved. apply F.
+  - rewrite inst_fmt_i by auto using small_or_umul_proved. apply F.
+Qed.
+Print Assumptions C14_to_radix_never_panics_in_range.
+
+(** * C18 — random ranges: EmptyRange exactly on an empty / inverted range or a zero bound.
+    The RNG is a finite scripted word stream: besides returning, the model can only run out of
+    script ([OutOfFuel]); it never panics otherwise. *)
+Theorem C14_rand_biguint_range_panics_iff : forall lo hi s k, canon lo -> canon hi -> words s ->
+  (gen_biguint_range addsub lo hi s = Panic k <-> val hi <= val lo /\ k = EmptyRange) /\
+  (uu_sample_single addsub lo hi s = Panic k <-> val hi <= val lo /\ k = EmptyRange) /\
+  ((do u <- uu_new addsub lo hi; uu_sample addsub u s) = Panic k <-> val hi <= val lo /\ k = EmptyRange) /\
+  ((do u <- uu_new_inclusive addsub lo hi; uu_sample addsub u s) = Panic k <-> val hi < val lo /\ k = EmptyRange).
+Proof.
+  intros lo hi s k Cl Ch Ws. pose proof addsub_params_ok as Ha.
+  unfold uu_sample_single.
+  rewrite gen_biguint_range_spec, uu_new_sample_spec, uu_new_inclusive_sample_spec by auto.
+  rewrite !omap_panic_iff.
+  split; [|split; [|split]]; first [apply spec_range_panic | apply spec_range_inclusive_panic].
+Qed.
+Print Assumptions C14_rand_biguint_range_panics_iff.
+
+Theorem C14_rand_bigint_range_panics_iff : forall lo hi s k, icanon lo -> icanon hi -> words s ->
+  (gen_bigint_range addsub lo hi s = Panic k <-> ival hi <= ival lo /\ k = EmptyRange) /\
+  (ui_sample_single addsub lo hi s = Panic k <-> ival hi <= ival lo /\ k = EmptyRange) /\
+  ((do u <- ui_new addsub lo hi; ui_sample addsub u s) = Panic k <-> ival hi <= ival lo /\ k = EmptyRange) /\
+  ((do u <- ui_new_inclusive addsub lo hi; ui_sample addsub u s) = Panic k <-> ival hi < ival lo /\ k = EmptyRange).
+Proof.
+  intros lo hi s k Cl Ch Ws. pose proof addsub_params_ok as Ha.
+  unfold ui_sample_single.
+  rewrite gen_bigint_range_spec, ui_new_sample_spec, ui_new_inclusive_sample_spec by auto.
+  rewrite !omap_panic_iff.
+  split; [|split; [|split]]; first [apply spec_range_panic | apply spec_range_inclusive_panic].
+Qed.
+Print Assumptions C14_rand_bigint_range_panics_iff.
+
+Theorem C14_rand_below_panics_iff : forall bound s k, canon bound -> words s ->
+  (gen_biguint_below bound s = Panic k <-> val bound = 0 /\ k = EmptyRange) /\
+  (forall n, 0 <= n -> gen_biguint n s <> Panic k).
+Proof.
+  intros bound s k Cb Ws. split.
+  - rewrite gen_biguint_below_spec by auto. rewrite omap_panic_iff, spec_below_panic.
+    pose proof (val_nonneg bound (proj1 Cb)). split; intros [? ?]; split; auto; lia.
+  - intros n Hn. rewrite gen_biguint_spec by auto. intros E. apply omap_panic_iff in E.
+    exact (spec_gen_biguint_no_panic _ _ _ E).
+Qed.
+Print Assumptions C14_rand_below_panics_iff.
+
+(* hence: a non-empty range returns a value unless the scripted stream ends *)
+Theorem C14_rand_range_otherwise : forall lo hi s, canon lo -> canon hi -> words s -> val lo < val hi ->
+  (exists r, gen_biguint_range addsub lo hi s = Ret r) \/ gen_biguint_range addsub lo hi s = OutOfFuel.
+Proof.
+  intros lo hi s Cl Ch Ws Hlt. apply (only_panic_cases _ EmptyRange (val hi <= val lo)); [|lia].
+  intros k. apply (C14_rand_biguint_range_panics_iff lo hi s k Cl Ch Ws).
+Qed.
+Print Assumptions C14_rand_range_otherwise.
+
+(** * C08 — conversions never panic (a value that does not fit is None / Err, NaN and
+    infinities give None) *)
+Theorem C14_conversions_never_panic :
+  (forall t v, canon v -> total (uto prim t v) /\ total (utry_into_owned prim t v) /\
+                          total (uto_f64 prim v) /\ total (uto_f32 prim v)) /\
+  (forall t x, icanon x -> total (ito prim t x) /\ total (itry_into_owned prim t x) /\
+                           total (ito_f64 prim x) /\ total (ito_f32 prim x)) /\
+  (forall t n, PrimProofs.in_range t n -> total (ufrom_prim t n) /\ total (ifrom t n) /\ total (ifrom_prim t n)) /\
+  (forall b, 0 <= b < 2 ^ 64 -> total (ufrom_f64 b) /\ total (ifrom_f64 b)) /\
+  (forall g, 0 <= g < 2 ^ 32 -> total (ufrom_f32 g) /\ total (ifrom_f32 g)).
+Proof.
+  pose proof prim_params_ok as Hp.
+  split; [|split; [|split; [|split]]]; intros; repeat split; eapply ret_never_panics.
+  - apply uto_spec; auto.
+  - apply utry_into_owned_spec; auto.
+  - apply uto_f64_spec; auto.
+  - apply uto_f32_spec; auto.
+  - apply ito_spec; auto.
+  - apply itry_into_owned_spec; auto.
+  - apply ito_f64_spec; auto.
+  - apply ito_f32_spec; auto.
+  - apply ufrom_prim_spec; auto.
+  - apply ifrom_spec; auto.
+  - apply ifrom_prim_spec; auto.
+  - apply ufrom_f64_spec; auto.
+  - apply ifrom_f64_spec; auto.
+  - apply ufrom_f32_spec; auto.
+  - apply ifrom_f32_spec; auto.
+Qed.
+Print Assumptions C14_conversions_never_panic.
+
+(** * C09 — byte / digit-vector conversions and the digit iterators never panic *)
+Theorem C14_bytes_never_panic :
+  (forall u, canon u -> total (uto_bytes_le u) /\ total (uto_bytes_be u) /\ total (uto_u32_digits u)) /\
+  (forall x, icanon x -> total (ito_bytes_le x) /\ total (ito_bytes_be x) /\ total (ito_u32_digits x) /\
+                         total (to_signed_bytes_le x) /\ total (to_signed_bytes_be x)) /\
+  (forall bs, inb 256 bs -> total (ufrom_bytes_le bs) /\ total (ufrom_bytes_be bs) /\
+                            total (from_signed_bytes_le bs) /\ total (from_signed_bytes_be bs) /\
+                            forall s, total (ifrom_bytes_le s bs) /\ total (ifrom_bytes_be s bs)).
+Proof.
+  split; [|split]; intros; repeat split; eapply ret_never_panics.
+  - apply uto_bytes_le_spec; auto.
+  - apply uto_bytes_be_spec; auto.
+  - apply uto_u32_digits_spec; auto.
+  - apply ito_bytes_le_spec; auto.
+  - apply ito_bytes_be_spec; auto.
+  - apply ito_u32_digits_spec; auto.
+  - apply to_signed_bytes_le_spec; auto.
+  - apply to_signed_bytes_be_spec; auto.
+  - apply ufrom_bytes_le_spec; auto.
+  - apply ufrom_bytes_be_spec; auto.
+  - apply from_signed_bytes_le_spec; auto.
+  - apply from_signed_bytes_be_spec; auto.
+  - apply ifrom_bytes_le_spec; auto.
+  - apply ifrom_bytes_be_spec; auto.
+Qed.
+Print Assumptions C14_bytes_never_panic.
+
+(* every state reachable from `iter_u32_digits()` by any interleaving of calls *)
+Theorem C14_iter_never_panics : forall s, inv s ->
+  total (it_len s) /\ total (it_size_hint s) /\ total (it_count s).
+Proof.
+  intros s Hs. repeat split; eapply ret_never_panics;
+    [apply it_len_spec|apply it_size_hint_spec|apply it_count_spec]; auto.
+Qed.
+Print Assumptions C14_iter_never_panics.
+(* The remaining models of C09 (unew, ufrom_slice, it_next, ...), C17 (serde) and C19 (sign
+   queries, neg, abs, cmp) are total Gallina functions without an [outcome]: they have no panic arm. *)
+
+(* Non-vacuity: each documented failure really occurs on canonical operands, and the same
+   operation returns next to it. *)
+Example C14_nonvacuous :
+  canonb [1; 2] = true /\ canonb [5] = true /\
+  usub addsub [5] [1; 2] = Panic SubUnderflow /\
+  udiv P [1; 2] [] = Panic DivZero /\ udiv P [1; 2] [5] = Ret (enc ((1 + 2 * B) / 5)) /\
+  uchecked_div P [1; 2] [] = Ret None /\
+  idiv_floor P (mkint Minus [1; 2]) (mkint NoSign []) = Panic DivZero /\
+  biguint_shl [5] (-1) = Panic NegShift /\ biguint_shl [5] 64 = Ret [0; 5] /\
+  biguint_shl [5] (2 ^ 66) = Panic MemOverflow /\
+  u_from_radix_le radix [1; 2] 257 = Panic BadRadix /\ u_to_str_radix radix [5] 37 = Panic BadRadix /\
+  r_umodpow modpow [3] [4] [] = Panic ZeroModulus /\
+  r_imodpow modpow (mkint Plus [3]) (mkint Minus [1]) (mkint Plus [7]) = Panic NegExponent /\
+  upow_big bmul pgr_pow [2] [0; 0; 1] = Panic MemOverflow /\
+  unth_root bmul bdivrem addsub pgr_pow pgr_roots guess_nostd [5] 0 = Panic ZeroRoot /\
+  isqrt bdivrem addsub pgr_roots guess_nostd (mkint Minus [4]) = Panic ImagRoot /\
+  gen_biguint_range addsub [5] [5] [1; 2] = Panic EmptyRange /\
+  gen_biguint_below [] [1; 2] = Panic EmptyRange.
+Proof. repeat split; vm_compute; reflexivity. Qed.
